@@ -20,8 +20,13 @@ Independent oracle: the observed outcome must be one of the outcomes of the real
 SEQUENTIALLY over all merges of the threads' programs (no model involved).
 """
 import ast
+import atexit
 import itertools
+import json
 import os
+import select
+import subprocess
+import sys
 
 from bv import common, sched
 from bv.common import Property, Failure, time_limit, exc_name
@@ -536,6 +541,10 @@ class LockAnalysis:
         return out
 
 
+def inherited_check(an):
+    return [m for m in DICT_MUTATORS if m not in an.classes.get('LRI', {})]
+
+
 class C03(Property):
     PID = 'C03'
     QUICK_BUDGET_S = 40
@@ -565,6 +574,8 @@ class C03(Property):
         self._serial_cache = {}
         self._obs_cache = {}
         self._warm = False
+        self._local = os.environ.get('BV_C03_CHILD') == '1'    # the child process runs the scheduled executions itself
+        self._child = None
 
     def warm_up(self):
         """CPython 3.12 instruments a code object for per-opcode tracing lazily: the first traced execution
@@ -573,6 +584,8 @@ class C03(Property):
         if self._warm:
             return
         self._warm = True
+        if not self._local:
+            return          # the child process warms itself up when it starts
         ops = [['set', 1, 1], ['get', 1], ['getd', 2], ['set', 2, 1], ['set', 3, 1], ['del', 3], ['popd', 1],
                ['setdefault', 4, 1], ['update', [[1, 1], [2, 2]]], ['popitem'], ['copy'], ['eq', [[1, 1]]],
                ['get', 4], ['pop', 2], ['clear']]
@@ -595,6 +608,9 @@ class C03(Property):
         # methods whose discipline the Lean theorems will reject -> the deep search is directed at them
         self._flagged = [(r['cls'], r['name']) for r in rows if not an.row_ok(r)]
         self._state_funcs = an.lock_requiring_helpers()
+        self._lock_anomaly = (not an.lock_assigned_in or any(c != 'RLock' for c in an.lock_ctors) or
+                              any(w.split('.')[1] not in ('__init__', '__new__') for w in an.lock_assigned_in) or
+                              bool(an.helper_reached_unlocked()) or bool(inherited_check(an)))
         for where in an.lock_assigned_in:       # a lock (re)created outside the constructor: aim at its callers
             hname = where.split('.')[1]
             if hname not in ('__init__', '__new__'):
@@ -734,6 +750,10 @@ class C03(Property):
         # (2) every public method of the translator's table as the victim of a pre-emption at its k-th own
         #     instruction, against an evicting / deleting / clearing second thread
         table = [(r['cls'], r['name']) for r in (self._analysis.rows() if getattr(self, '_analysis', None) else [])]
+        # (2a) clear() re-initialises all private state: overlap it with waiters, then let the victim / a third thread
+        #      go on (pre-emption inside clear, then a seeded random tail)
+        yield from self.focus_cases([t for t in table if t[1] == 'clear'], full=self.thorough, tails=2, followup=True,
+                                    stride=1 if self.thorough else 3)
         if not self.thorough:
             yield from self.focus_cases(table, full=False, stride=3)
         # (3) random programs (2-3 threads) x sticky random walks
@@ -779,8 +799,19 @@ class C03(Property):
                                                  'progs': [[vop], adv]}, 0, name))
         return out
 
-    def focus_cases(self, flagged, max_k=400, full=True, stride=1):
+    def focus_cases(self, flagged, max_k=400, full=True, stride=1, tails=0, followup=False):
         live = self.focus_bases(flagged, full)
+        if followup:
+            # the victim goes on with a second operation and a third thread joins: needed when the damage done inside
+            # the victim's method only shows later (e.g. a lock swapped by clear(): a waiter on the OLD lock and a
+            # newcomer on the NEW one are then both inside)
+            more = []
+            for base, victim, fn in live:
+                m = base['max']
+                p0, p1 = base['progs']
+                more.append((dict(base, progs=[p0 + [['set', 7, 3]], p1]), victim, fn))
+                more.append((dict(base, progs=[p0, p1, [['set', 8, 4], ['get', 1]]]), victim, fn))
+            live = more + live
         self.rng.shuffle(live)
         live.sort(key=lambda b: b[0]['max'])          # boundary size first
         off = self.rng.randrange(stride) if stride > 1 else 0
@@ -792,6 +823,9 @@ class C03(Property):
                 yield case
                 if obs.get('focus_hit'):
                     nxt.append((base, victim, fn))
+                    for _ in range(tails):
+                        yield dict(base, sched={'kind': 'focus', 'victim': victim, 'fn': fn, 'k': k,
+                                                'tail': self.rng.randrange(1 << 30)})
             live = nxt
             if not live:
                 return
@@ -802,7 +836,10 @@ class C03(Property):
         flagged = getattr(self, '_flagged', None) or []
         if flagged:
             self.stats['directed_at'] = ['%s.%s' % f for f in flagged]
+            if getattr(self, '_lock_anomaly', False):
+                yield from self.focus_cases(flagged, full=False, tails=3, followup=True, stride=2)
             yield from self.focus_cases(flagged)
+            yield from self.focus_cases(flagged, full=False, tails=2, followup=True)
         for base in self.FIXED:
             yield from self.schedules_for(base, rng, systematic=True, nrandom=40)
         while True:
@@ -835,6 +872,7 @@ class C03(Property):
             # as it gets: to completion or until it blocks on the lock), then resume the victim.  `again` = number
             # of instructions after which the victim is pre-empted a second time (None = never).
             victim, fn, k = sd['victim'], sd['fn'], sd['k']
+            tail = _r.Random(sd['tail']) if sd.get('tail') is not None else None
             st = {'phase': 0, 'count': 0, 'hit': False, 'cur': None, 'sched': None}
 
             def choose(step, runnable):
@@ -859,6 +897,11 @@ class C03(Property):
                             st['cur'] = others[0]
                         return st['cur']
                     st['phase'] = 2
+                if tail is not None:        # afterwards: a seeded sticky random walk over whoever can run
+                    if st['cur'] in runnable and tail.random() < 0.8:
+                        return st['cur']
+                    st['cur'] = tail.choice(runnable)
+                    return st['cur']
                 return victim if victim in runnable else runnable[0]
 
             def attach(s_):
@@ -879,7 +922,93 @@ class C03(Property):
             return state['cur']
         return choose
 
+    # Every scheduled execution of the real code runs in a CHILD PROCESS (one long-lived child, JSON lines over pipes):
+    # if the code under test - or CPython's tracing machinery under it - kills the interpreter (signal, os._exit,
+    # abort) or blocks for good, that is an OBSERVATION of the case ('died': 'signal 11' / 'exit 3' / 'timeout'), the
+    # parent survives, restarts the child, and the decision logic still runs.
+    CHILD_REPLY_TIMEOUT_S = 400
+
+    def _start_child(self):
+        env = dict(os.environ, BV_C03_CHILD='1')
+        code = 'from bv.props.c03 import child_main; child_main()'
+        self._child = subprocess.Popen([sys.executable, '-u', '-c', code, self.tier, str(self.seed)],
+                                       stdin=subprocess.PIPE, stdout=subprocess.PIPE, env=env)
+        atexit.register(self._stop_child)
+        line = self._read_child(120)
+        if line is None or line.get('ready') is not True:
+            self._stop_child()
+            raise common.InfraError('C03 child process did not start: %r' % (line,))
+
+    def _stop_child(self):
+        c, self._child = self._child, None
+        if c is not None:
+            try:
+                c.kill()
+                c.wait(timeout=10)
+            except Exception:
+                pass
+
+    def _read_child(self, timeout):
+        c = self._child
+        r, _, _ = select.select([c.stdout], [], [], timeout)
+        if not r:
+            return None
+        line = c.stdout.readline()
+        if not line:
+            return None
+        try:
+            return json.loads(line)
+        except ValueError:
+            return None
+
+    def _ask_child(self, case):
+        """observation of `case` from the child, or {'died': how} if the child was killed by it"""
+        if self._child is None or self._child.poll() is not None:
+            self._start_child()
+        c = self._child
+        try:
+            c.stdin.write((json.dumps(case) + '\n').encode())
+            c.stdin.flush()
+            reply = self._read_child(self.CHILD_REPLY_TIMEOUT_S)
+        except (BrokenPipeError, OSError):
+            reply = None
+        if reply is not None and 'obs' in reply:
+            return reply['obs']
+        rc = c.poll()
+        if rc is None:
+            how = 'timeout (no answer within %d s; killed)' % self.CHILD_REPLY_TIMEOUT_S
+        else:
+            how = ('signal %d' % -rc) if rc < 0 else ('exit %d' % rc)
+        self._stop_child()
+        return {'died': how, 'results': [], 'steps': 0}
+
     def impl(self, case):
+        if self._local:
+            return self._impl_local(case)
+        key = self.key(case)
+        if key in self._obs_cache:
+            return self._obs_cache[key]
+        if getattr(self, '_deaths_in_a_row', 0) >= 5:      # the child dies on everything: do not spawn two per case
+            obs = {'died': 'not attempted: the child process died on each of the 5 preceding cases', 'results': [],
+                   'steps': 0}
+            self._obs_cache[key] = obs
+            return obs
+        obs = self._ask_child(case)
+        self._deaths_in_a_row = (getattr(self, '_deaths_in_a_row', 0) + 1) if 'died' in obs else 0
+        if 'died' in obs:                       # once more, in a fresh child
+            self.stats['child_died'] = self.stats.get('child_died', 0) + 1
+            first = obs['died']
+            obs = self._ask_child(case)
+            if 'died' in obs:
+                obs['died_first'] = first
+            else:
+                self.stats['child_died_not_reproduced'] = self.stats.get('child_died_not_reproduced', 0) + 1
+        if len(self._obs_cache) > 20000:
+            self._obs_cache.clear()
+        self._obs_cache[key] = obs
+        return obs
+
+    def _impl_local(self, case):
         if not self._warm:
             self.warm_up()
         key = self.key(case)
@@ -900,6 +1029,10 @@ class C03(Property):
                    'lockset': [list(x) for x in r['lockset_violations']],
                    'switches': sum(1 for a, b in zip(r['schedule'], r['schedule'][1:]) if a != b),
                    'schedule_len': len(r['schedule'])}
+            if r.get('stuck'):
+                obs['stuck'] = True
+            if r.get('foreign_acquires'):
+                obs['foreign_acquires'] = r['foreign_acquires']
             if hasattr(ch, 'state'):
                 obs['focus_hit'] = bool(ch.state['hit'])
             try:
@@ -961,6 +1094,17 @@ class C03(Property):
         self._nt = False
         if 'exc' in obs:
             return Failure('harness', 'scheduled run failed: %s' % obs['exc'])
+        if 'died' in obs:
+            # the interpreter running this case was killed, twice.  When the lock discipline read off the source is
+            # already rejected, that is behaviour of the changed code worth reporting (a cache operation that takes
+            # the interpreter down is an exception no sequential run raises / an unusable cache); on a tree whose
+            # discipline is intact it is a problem of the machinery, not a verdict.
+            if getattr(self, '_flagged', None) or getattr(self, '_lock_anomaly', False):
+                return Failure('crash', 'the process executing this case died (%s; first attempt: %s)' % (
+                    obs['died'], obs.get('died_first')))
+            raise common.InfraError('C03 child process died twice on case %r: %s' % (case, obs['died']))
+        if obs.get('stuck'):
+            return Failure('deadlock', 'a thread blocked outside the scheduler for 60 s (schedule %r)' % (case['sched'],))
         if obs.get('deadlock'):
             return Failure('deadlock', 'all threads blocked (schedule %r)' % (case['sched'],))
         if obs.get('step_limit'):
@@ -1000,7 +1144,8 @@ class C03(Property):
 
     def line(self, case):
         obs = self._obs_cache.get(self.key(case))
-        if obs is None or 'exc' in obs or 'unusable' in obs or obs.get('deadlock') or obs.get('step_limit'):
+        if obs is None or 'exc' in obs or 'died' in obs or obs.get('stuck') or 'unusable' in obs or obs.get('deadlock') \
+                or obs.get('step_limit'):
             return None
         serial_ops = self._linearised(case, obs)
         if serial_ops is None:
@@ -1115,6 +1260,29 @@ class C03(Property):
 
     def describe(self, case):
         return case
+
+
+def child_main():
+    """the child process: read one case per line on stdin, answer {'obs': …} per line on the original stdout"""
+    tier, seed = sys.argv[1], int(sys.argv[2])
+    out = os.fdopen(os.dup(1), 'w')
+    os.dup2(2, 1)                       # anything the code under test prints goes to stderr, not into the protocol
+    sys.stdout = sys.stderr
+    common.ensure_repo_on_path()
+    prop = C03(tier, seed)
+    prop._local = True
+    prop.regen()                        # the translator's list of lock-requiring helpers (nothing is written)
+    # (the warm-up runs with the first case: if the code under test kills the process even there, the parent sees
+    #  it as the death of that case, not as a child that cannot start)
+    out.write(json.dumps({'ready': True}) + '\n')
+    out.flush()
+    for line in sys.stdin:
+        line = line.strip()
+        if not line:
+            continue
+        obs = prop._impl_local(json.loads(line))
+        out.write(json.dumps({'obs': obs}) + '\n')
+        out.flush()
 
 
 PROPERTY = C03
